@@ -48,6 +48,8 @@ class OptCase:
             kw = {}
             for k, v in self.gqr.items():
                 kw[k] = v.copy() if isinstance(v, np.ndarray) else v
+            if self.meta.get("omit_all_sensors") and kw.get("constraint_option") == "predetermined":
+                kw.pop("all_sensors", None)       # `predetermined` never reads the unconstrained ranking: the keyword is optional
             return GQR(), kw
         raise ValueError(self.kind)
 
@@ -63,10 +65,21 @@ class OptCase:
         res = {"n": n, "m": m, "k": k, "tap_unavailable": False}
         if "prefit" not in self.meta:
             OptCase._toggle[0] += 1
-            self.meta["prefit"] = OptCase._toggle[0] % 3 == 0
-        if self.meta["prefit"] and n >= 1:
+            t = OptCase._toggle[0]
+            self.meta["prefit"] = ("none" if t % 3 else ["same", "unconstrained", "other_option"][(t // 3) % 3])
+        pf = self.meta["prefit"]
+        pf = {True: "same", False: "none"}.get(pf, pf)
+        if pf != "none" and n >= 1:
+            # the object's earlier life: a fit on other data with the same keywords, the natural two-stage use of GQR (first
+            # unconstrained, then constrained), or an earlier fit under another constraint option
+            kw0 = {k_: (v.copy() if isinstance(v, np.ndarray) else v) for k_, v in kw.items()}
+            if self.kind == "gqr" and pf == "unconstrained":
+                kw0 = {}
+            elif self.kind == "gqr" and pf == "other_option" and kw0.get("constraint_option"):
+                opts = [o for o in ("max_n", "exact_n", "predetermined") if o != kw0["constraint_option"]]
+                kw0["constraint_option"] = opts[len(self.B) % 2]
             try:
-                opt.fit(self.B[::-1].copy(), **{k_: (v.copy() if isinstance(v, np.ndarray) else v) for k_, v in kw.items()})
+                opt.fit(self.B[::-1].copy(), **kw0)
             except Exception:
                 opt, kw = self.make_optimizer()
         Bc = self.B.copy()
